@@ -35,13 +35,20 @@ def accepts(kind, s):
 
 class C12(Prop):
     id = "C12"
-    lean_modules = ["PkgProofs.Props.C12"]
+    lean_modules = ["PkgProofs.Props.C12", "PkgProofs.Props.C12Scan"]
     generated = ["VersionRx", "SpecifierRx"]
     theorems = ["C12.version_classes_verified", "C12.specifier_classes_verified", "C12.translator_supported",
                 "C12.version_cert", *[f"C12.op{i}_cert" for i in range(8)], "C12.operators_are_pep440s",
                 "C12.specifier_union", "C12.version_language", "C12.specifier_language",
                 "C12.version_language_matches", "C12.specifier_language_matches",
-                "Rx.equiv1_sound", "Rx.isBisim_sound", "Rx.deriv_iff", "Rx.classify_total"]
+                "Rx.equiv1_sound", "Rx.isBisim_sound", "Rx.deriv_iff", "Rx.classify_total",
+                # the hand-written scanner V.scan (used by every other model) accepts exactly this language
+                "C12.spec_rx_iff_spelling", "C12.scan_accepts_iff_spec_rx", "C12.scan_accepts_iff_source_regex",
+                "C12.scan_rejects_non_unicode", "RxK.Ctx.classOf_kind", "RxK.Ctx.accepts_iff_M",
+                "RxK.Ctx.M_version_iff_spelling",
+                # the same for the specifier scanner S.parseSpec (used by C03/C04/C11)
+                "C12.parseSpec_accepts_iff_spec_rx", "C12.parseSpec_accepts_iff_source_regex",
+                "RxK.parse_iff", "RxK.Ctx.M_specifier_iff", "RxK.scanCore_iff"]
     rule = ("strings = spelled versions / clauses from the grammar, token- and character-level damage with one "
             "representative per code-point class, and the shortest word distinguishing generated and spec regex if any; "
             "non-trivial = accepted by the implementation")
